@@ -10,6 +10,17 @@ index_rel.wtml are compared with the range of all leaves.
 Obligations that can be reported.  Witness keys of all: via ("merge"|"builder"|"study"),
 mode, depth, leaves [[x, y, content-kind], ...] (via=study: width, height, content instead),
 seed, workers, filter; failures on one tile add tile=[n,x,y], card.
+Update histories (a leaf file is saved again after its pixels changed; the ground truth of a leaf
+is then the data astropy reads from the leaf FILE, and leaf-cards is also checked after every pass):
+  via=history    mode, depth, cascade ("merge"|"builder"), negative, passes = [[ [x, y, content-kind,
+                 how, op, span], ...], ...] with how in write | save | rw | update and op in fill | merge
+                 (see run_history: Image.save after ImageLoader.load_path, PyramidIO.read_image +
+                 write_image, the PyramidIO.update_image context manager)
+  via=chunked    mode, depth, height (map = height x 2 height), chunk [h, w]: a plate-carree map sampled
+                 chunk by chunk (ChunkedPlateCarreeSampler + Builder.toast_base(tile_filter=...)) into a
+                 TOAST FITS pyramid -- a leaf crossing a chunk border is updated once per chunk
+  via=multi_tan  mosaic [H, W], pieces [[y0, x0, h, w], ...], bottom_up: overlapping FITS pieces of one
+                 mosaic tiled by MultiTanProcessor.tile -- a leaf is updated once per piece touching it
   rt/cascade/fits-range/leaf-cards      a leaf tile's cards differ from its own finite range
   rt/cascade/fits-range/parent-cards    a tile above the leaves: card missing or different
                                         from the range of the leaves beneath it
@@ -37,12 +48,19 @@ Bounds
             zeros, and pyramids mixing positive, negative and generic leaves -- plus 6 study
             tilings of such images; 10 of them are always among the pyramids re-run with 2 and
             4 workers.
+            Update histories: 72 single-leaf histories = {save, rw, update} x {F32, F64, I16} x value spans
+            {1->50 (widen), 50->1 (narrow), 1->50->0.02, 50->0.02->1} x {every pixel replaced, merge of a
+            full image}; 20 random histories (2-4 passes, <= 10 leaves, depth 1..3, F32/F64/I16/I32/U8);
+            4 chunked plate-carree maps (64|96 x 128|192 px, 1..6 chunks, depth 1..2); 5 multi_tan
+            tilings (2-5 overlapping pieces, mosaics <= 700 px); one of each kind re-run in parallel.
   thorough: depth 2: 1500; depth 3: 250; depth 4: 8; integer: 300; study: 200 (up to 2100 px);
             zero-extremum family: 400 pyramids + 40 study tilings; 200 (+40 zero-extremum)
-            pyramids x workers {2, 3, 4}.
+            pyramids x workers {2, 3, 4}.  Update histories: the 72 + 600 random histories, 100 chunked maps
+            (up to 128 x 256 px), 60 multi_tan tilings, 30 of them x workers {2, 3, 4}.
 Trusted: astropy.io.fits header/data round trip; the XML attribute names DataMin / DataMax
 (omitted by wwt_data_formats when the value is 0).
-Not covered: leaves containing +-inf (the statement speaks of NaNs; np.nanmin of such a leaf
+Not covered: MultiWcsProcessor.tile (same PyramidIO.update_image path as multi_tan, a run costs > 10 s);
+leaves containing +-inf (the statement speaks of NaNs; np.nanmin of such a leaf
 is not finite and toasty then writes no card).
 """
 import contextlib
@@ -136,6 +154,216 @@ def close(card, exp):
     return abs(card - exp) <= RTOL * abs(exp) + 1e-300
 
 
+# ----------------------------------------------------------------------------- update histories
+# A leaf tile is not only written once: the multi-image tilers, the chunked TOAST sampler and user code load an existing
+# FITS tile, change its pixels and save it again.  The statement quantifies over what is in the files, whatever their
+# history, so for these scenarios the ground truth of a leaf is the data array astropy reads from the leaf FILE (after the
+# step / after all passes); what the changes do to the pixels (C15 / the samplers' business) plays no role.
+
+HOWS = ("write", "save", "rw", "update")
+OPS = ("fill", "merge")
+AMPS = (0.02, 1.0, 50.0)
+
+
+def pass_array(spec, k, x, y, kind, amp):
+    """New data brought to leaf (x, y) by pass ``k``: mask pattern of ``kind``; floating point: values in
+    (-0.3 amp, 0.7 amp); integer modes: values in 1 .. max(2, 100 amp) (negated at random when spec['negative'])."""
+    mode = spec["mode"]
+    nprng = np.random.default_rng([spec["seed"], x, y, k])
+    pat = M.random_array(mode, 256, 256, nprng, kind=kind)
+    und = M.undef_mask(mode, pat)
+    dt = M.DTYPES[mode][0]
+    if mode in M.INT_MODES:
+        hi = int(min(max(2, 100 * amp), np.iinfo(dt).max))
+        a = nprng.integers(1, hi + 1, (256, 256)).astype(np.int64)
+        if spec.get("negative") and mode != "U8":
+            a = np.where(nprng.random((256, 256)) < 0.5, -a, a)
+        a = a.astype(dt)
+        a[und] = 0
+    else:
+        a = ((nprng.random((256, 256)) - 0.3) * amp).astype(dt)
+        a[und] = np.nan
+    return a
+
+
+def _tile_file(base, n, x, y):
+    return os.path.join(base, str(n), str(y), "%d_%d.fits" % (y, x))
+
+
+def _check_leaf_file(base, depth, x, y, fail, when):
+    """leaf-cards clause on ONE file, right now: cards == finite range of the data in that file."""
+    data, hdr = M.read_tile_file(_tile_file(base, depth, x, y), "fits")
+    if data is None or M.mode_of_array(data) is None or np.all(M.undef_mask(M.mode_of_array(data), data)):
+        return
+    exp = finite_range([data])
+    if exp is None:
+        return
+    for card, e in (("DATAMIN", exp[0]), ("DATAMAX", exp[1])):
+        if card not in hdr:
+            fail(O_LEAF, "%s: leaf (%d,%d,%d) has no %s card; its data span [%r, %r]" % (when, depth, x, y, card, exp[0], exp[1]),
+                 tile=[depth, x, y], card=card)
+        elif not close(hdr[card], e):
+            fail(O_LEAF, "%s: leaf (%d,%d,%d): %s = %r, finite %s of the data in that file = %r" % (
+                when, depth, x, y, card, hdr[card], "minimum" if card == "DATAMIN" else "maximum", e), tile=[depth, x, y], card=card)
+
+
+def run_history(spec, pio, base, fail):
+    """via=history.  spec['passes'] = [[ [x, y, kind, how, op, amp], ... ], ...]; passes run one after the other.
+      how  'write'   pio.write_image(pos, Image.from_array(new))                       (a fresh tile, clobbering)
+           'save'    img = ImageLoader().load_path(file); change img; img.save(file)   (format: the image's own, fits)
+           'rw'      img = pio.read_image(pos, default='masked'); change; pio.write_image(pos, img)
+           'update'  with pio.update_image(pos, default='masked') as img: change
+      op   'fill'    new.fill_into_maskable_buffer(img, ...)    every pixel replaced (the range can shrink)
+           'merge'   new.update_into_maskable_buffer(img, ...)  defined pixels of ``new`` land in img
+    After every pass each touched leaf file is checked; returns the number of saves onto an existing file."""
+    from toasty.image import Image, ImageLoader
+    from toasty.pyramid import Pos
+    depth = spec["depth"]
+    rewrites = 0
+    everything = (slice(None),) * 4
+    for k, updates in enumerate(spec["passes"]):
+        for x, y, kind, how, op, amp in updates:
+            pos = Pos(depth, x, y)
+            new = Image.from_array(pass_array(spec, k, x, y, kind, amp), default_format="fits")
+            path = _tile_file(base, depth, x, y)
+            existed = os.path.exists(path)
+            tmode = new.mode
+
+            def change(img):
+                if op == "fill":
+                    new.fill_into_maskable_buffer(img, *everything)
+                else:
+                    new.update_into_maskable_buffer(img, *everything)
+
+            if how == "save" and op == "fill" and kind == "allundef":
+                how = "rw"      # Image.save would store an all-undefined image as a file; pyramid writers never do (write_image unlinks)
+            if how == "write" or (how == "save" and not existed):
+                pio.write_image(pos, new)
+                continue
+            rewrites += int(existed)
+            if how == "save":
+                img = ImageLoader().load_path(path)
+                change(img)
+                img.save(path)
+            elif how == "rw":
+                img = pio.read_image(pos, default="masked", masked_mode=tmode)
+                change(img)
+                pio.write_image(pos, img)
+            elif how == "update":
+                with pio.update_image(pos, default="masked", masked_mode=tmode) as img:
+                    change(img)
+            else:
+                raise ValueError(how)
+        for x, y in sorted(set((u[0], u[1]) for u in updates)):
+            _check_leaf_file(base, depth, x, y, fail, "after pass %d" % k)
+    pio.clean_lockfiles(depth)
+    return rewrites
+
+
+class FakeChunkedImage(object):
+    """An in-memory stand-in for toasty.jpeg2000.ChunkedJPEG2000Reader (shape, n_chunks, chunk_spec, chunk_data)."""
+
+    def __init__(self, data, ch, cw, order):
+        self._data, self._ch, self._cw = data, ch, cw
+        H, W = data.shape
+        self._per_row = (W + cw - 1) // cw
+        self._n = ((H + ch - 1) // ch) * self._per_row
+        self._order = order
+
+    shape = property(lambda self: self._data.shape)
+    n_chunks = property(lambda self: self._n)
+
+    def chunk_spec(self, i):
+        i = self._order[i]
+        H, W = self._data.shape
+        y0, x0 = self._ch * (i // self._per_row), self._cw * (i % self._per_row)
+        return x0, y0, min(self._cw, W - x0), min(self._ch, H - y0)
+
+    def chunk_data(self, i):
+        x0, y0, w, h = self.chunk_spec(i)
+        return self._data[y0:y0 + h, x0:x0 + w]
+
+
+def run_chunked(spec, pio, builder):
+    """via=chunked: a plate-carree float map (H x 2H, 5-40 % NaN, every chunk with its own level and spread) is sampled into
+    a FITS TOAST pyramid chunk after chunk, the way test_earth_plate_carree_jpeg2000_chunked_planetary does it:
+    Builder.toast_base(chunker.sampler(i), depth, is_planet=True, tile_filter=chunker.filter(i)) for every chunk i.
+    A TOAST leaf crossing a chunk border is updated once per chunk."""
+    from toasty.samplers import ChunkedPlateCarreeSampler
+    nprng = np.random.default_rng(spec["seed"])
+    H, W = spec["height"], 2 * spec["height"]
+    ch, cw = spec["chunk"]
+    dt = M.DTYPES[spec["mode"]][0]
+    data = nprng.random((H, W))
+    n_chunks = ((H + ch - 1) // ch) * ((W + cw - 1) // cw)
+    for j in range((H + ch - 1) // ch):
+        for i in range((W + cw - 1) // cw):
+            level = float(nprng.choice([-40.0, -1.0, 0.0, 3.0, 200.0]))
+            spread = float(nprng.choice([0.01, 1.0, 30.0]))
+            blk = data[j * ch:(j + 1) * ch, i * cw:(i + 1) * cw]
+            blk[...] = level + spread * blk
+    data[nprng.random((H, W)) < float(nprng.uniform(0.05, 0.4))] = np.nan
+    data = data.astype(dt)
+    order = [int(v) for v in np.random.default_rng(spec["seed"] + 1).permutation(n_chunks)]
+    chunker = ChunkedPlateCarreeSampler(FakeChunkedImage(data, ch, cw, order), planetary=True)
+    for i in range(chunker.n_chunks):
+        builder.toast_base(chunker.sampler(i), spec["depth"], is_planet=True, tile_filter=chunker.filter(i), parallel=spec["workers"])
+    pio.clean_lockfiles(spec["depth"])
+    return chunker.n_chunks
+
+
+def run_multi_tan(spec, pio, builder, base):
+    """via=multi_tan: rectangular pieces [y0, x0, h, w] cut out of one mosaic (a steep ramp plus noise, a negative
+    corner, NaN holes) are stored as FITS files on a common TAN grid and tiled by MultiTanProcessor.tile; pieces share leaf
+    tiles, so a leaf is updated once per piece that touches it.  Overlapping pieces agree pixel by pixel."""
+    from astropy.io import fits
+    from astropy.wcs import WCS
+    from toasty import collection, multi_tan
+    H, W = spec["mosaic"]
+    nprng = np.random.default_rng(spec["seed"])
+    yy, xx = np.mgrid[0:H, 0:W]
+    mos = (nprng.random((H, W)) + 60.0 * xx / W - 25.0 * yy / H - 5.0).astype(np.float32)
+    mos[nprng.random((H, W)) < 0.05] = np.nan
+    src = tempfile.mkdtemp(prefix="src_", dir=os.path.dirname(base))
+    try:
+        g1, g2 = W / 2 + 0.5, H / 2 + 0.5
+        paths = []
+        for k, (y0, x0, h, w) in enumerate(spec["pieces"]):
+            sub = mos[y0:y0 + h, x0:x0 + w]
+            wc = WCS(naxis=2)
+            wc.wcs.ctype = ["RA---TAN", "DEC--TAN"]
+            wc.wcs.crval = [10, 20]
+            if spec.get("bottom_up"):
+                sub = sub[::-1]
+                wc.wcs.crpix = [g1 - x0, h + 1 - (g2 - y0)]
+                wc.wcs.cdelt = [-0.001, 0.001]
+            else:
+                wc.wcs.crpix = [g1 - x0, g2 - y0]
+                wc.wcs.cdelt = [-0.001, -0.001]
+            p = os.path.join(src, "piece%d.fits" % k)
+            fits.PrimaryHDU(np.ascontiguousarray(sub), header=wc.to_header()).writeto(p, overwrite=True)
+            paths.append(p)
+        proc = multi_tan.MultiTanProcessor(collection.load(paths))
+        proc.compute_global_pixelization(builder)
+        proc.tile(pio, parallel=spec["workers"], cli_progress=False)
+    finally:
+        shutil.rmtree(src, ignore_errors=True)
+    return len(paths)
+
+
+def leaves_from_files(base, depth, mode):
+    """Data of every leaf file (read with astropy).  As for the written-once pyramids, a leaf whose pixels are all undefined
+    (all NaN / all zero for integer data; Image.save stores such an image when asked to, PyramidIO.write_image does not) is
+    not a tile: nothing is claimed about it and it does not make the pyramid non-empty."""
+    out = {}
+    for y in range(2 ** depth):
+        for x in range(2 ** depth):
+            data, _hdr = M.read_tile_file(_tile_file(base, depth, x, y), "fits")
+            if data is not None and M.mode_of_array(data) is not None and not np.all(M.undef_mask(M.mode_of_array(data), data)):
+                out[(x, y)] = data
+    return out
+
+
 def range_case(spec, workdir):
     """Returns {'fails': [...], 'cards': {"n/x/y": [min, max]}, 'tiles': int}."""
     import warnings
@@ -156,6 +384,7 @@ def range_case(spec, workdir):
         pio = PyramidIO(base, default_format="fits")
         via = spec["via"]
         builder = None
+        rewrites = None
         try:
             with contextlib.redirect_stdout(io.StringIO()):
                 if via == "study":
@@ -180,6 +409,26 @@ def range_case(spec, workdir):
                         if r0 >= r1 or c0 >= c1:
                             return []
                         return [image[r0 - gy0:r1 - gy0, c0 - gx0:c1 - gx0]]
+                elif via in ("history", "chunked", "multi_tan"):
+                    if via == "history":
+                        depth = spec["depth"]
+                        rewrites = run_history(spec, pio, base, fail)
+                        if spec.get("cascade") == "builder":
+                            builder = Builder(pio)
+                            builder.imgset.tile_levels = depth
+                    elif via == "chunked":
+                        builder = Builder(pio)
+                        rewrites = run_chunked(spec, pio, builder) - 1
+                        depth = spec["depth"]
+                    else:
+                        builder = Builder(pio)
+                        rewrites = run_multi_tan(spec, pio, builder, base) - 1
+                        depth = builder.imgset.tile_levels
+                    leaves = leaves_from_files(base, depth, spec["mode"])     # ground truth: what is in the leaf files now
+
+                    def beneath(n, x, y):
+                        k = depth - n
+                        return [a for (lx, ly), a in leaves.items() if lx >> k == x and ly >> k == y]
                 else:
                     depth = spec["depth"]
                     leaves = {}
@@ -245,13 +494,13 @@ def range_case(spec, workdir):
                 got = (float(el.get("DataMin", "0")), float(el.get("DataMax", "0")))
                 if not (close(got[0], everything[0]) and close(got[1], everything[1])):
                     fail(O_WTML, "WTML DataMin/DataMax %r, full-resolution data span %r" % (got, everything))
-        return {"fails": fails, "cards": cards, "tiles": tiles}
+        return {"fails": fails, "cards": cards, "tiles": tiles, "rewrites": rewrites}
     finally:
         shutil.rmtree(base, ignore_errors=True)
 
 
 def is_zero_family(spec):
-    return spec.get("content") in SIGN_KINDS or any(l[2] in SIGN_KINDS for l in spec.get("leaves", []))
+    return spec.get("content") in SIGN_KINDS or any(l[2] in SIGN_KINDS for l in spec.get("leaves") or [])
 
 
 def batch(specs, workdir):
@@ -337,17 +586,82 @@ def run(ctx):
                   nzero, nzstudy, min(nzpar, len(zero))))
     ctx.bound("float FITS pyramids: depth 1 all 15 non-empty leaf subsets x {F32,F64}; depth 2: %d random subsets; depth 3: %d; depth 4: %d; "
               "integer FITS pyramids: %d; study tilings (tile_study_image -> Builder.cascade -> WTML), extents <= %d: %d" % (n2, n3, n4, nint, smax, nstudy))
+    # update histories: leaves saved again after their pixels changed (see run_history / run_chunked / run_multi_tan)
+    hist = []
+
+    def hspec(mode, depth, passes, **kw):
+        h = {"via": "history", "mode": mode, "depth": depth, "passes": passes, "cascade": rng.choice(["merge", "builder"]),
+             "seed": rng.randrange(2 ** 31), "workers": 1, "filter": None, "negative": mode in ("I16", "I32") and rng.random() < 0.5}
+        h.update(kw)
+        return h
+
+    # (i) one leaf, every save path x {widen, narrow, widen-then-narrow, narrow-then-widen} x {fill, merge of a full image}
+    for how in ("save", "rw", "update"):
+        for mode in ("F32", "F64", "I16"):
+            for amps in ((1.0, 50.0), (50.0, 1.0), (1.0, 50.0, 0.02), (50.0, 0.02, 1.0)):
+                for op in OPS:
+                    x, y = rng.randrange(2), rng.randrange(2)
+                    passes = [[[x, y, "full" if op == "merge" else rng.choice(["mixed", "full", "blocks"]), "write" if k == 0 else how, op, a],
+                               [1 - x, y, "mixed", "write", "fill", 1.0]][:2 if k == 0 else 1] for k, a in enumerate(amps)]
+                    hist.append(hspec(mode, 1, passes))
+    n_fixed = len(hist)
+    # random histories: 2-4 passes over a sparse depth-1..3 pyramid, every pass touching a random share of the leaves
+    nhist, nchunk, ntan, nhpar = (600, 100, 60, 30) if ctx.thorough else (20, 4, 5, 3)
+    for i in range(nhist):
+        depth = (1, 2, 2, 3)[i % 4]
+        side = 2 ** depth
+        pool = [(x, y) for y in range(side) for x in range(side) if rng.random() < rng.choice([0.15, 0.4, 1.0])] or [(0, 0)]
+        pool = pool[:10]
+        mode = rng.choice(["F32", "F32", "F64", "F64", "I16", "I32", "U8"])
+        passes = []
+        for k in range(rng.randint(2, 4)):
+            ups = [[x, y, rng.choice(["mixed", "mixed", "full", "blocks", "sparse", "single", "allundef"]),
+                    rng.choice(HOWS if k else ("write", "update")), rng.choice(OPS), rng.choice(AMPS)]
+                   for (x, y) in pool if k == 0 or rng.random() < 0.6]
+            passes.append(ups or [[pool[0][0], pool[0][1], "mixed", "update", "merge", rng.choice(AMPS)]])
+        hist.append(hspec(mode, depth, passes))
+    for i in range(nchunk):
+        H = rng.choice([64, 96, 128]) if ctx.thorough else rng.choice([64, 96])
+        hist.append({"via": "chunked", "mode": rng.choice(["F32", "F64"]), "depth": (1, 1, 2, 1)[i % 4], "height": H,
+                     "chunk": [rng.choice([H // 2, H]), rng.choice([2 * H, H, 2 * H // 3])], "seed": rng.randrange(2 ** 31),
+                     "workers": 1, "filter": None})
+    for i in range(ntan):
+        Hm, Wm = rng.choice([(420, 520), (300, 640), (700, 600)])
+        pcs = []
+        for _ in range(rng.randint(2, 5)):
+            h, w = rng.randint(60, Hm // 2 + 60), rng.randint(60, Wm // 2 + 60)
+            pcs.append([rng.randint(0, Hm - h), rng.randint(0, Wm - w), h, w])
+        pcs[0][0], pcs[0][1] = 0, 0
+        pcs[-1][0], pcs[-1][1] = Hm - pcs[-1][2], Wm - pcs[-1][3]      # the union spans the mosaic (fixes the global grid)
+        hist.append({"via": "multi_tan", "mode": "F32", "mosaic": [Hm, Wm], "pieces": pcs, "bottom_up": bool(i % 2), "seed": rng.randrange(2 ** 31),
+                     "workers": 1, "filter": None})
+    serial.extend(hist)
+    ctx.bound("update histories (leaf tiles saved again after their pixels changed; ground truth = the data in the leaf files): %d single-leaf "
+              "histories = {Image.save after ImageLoader.load_path, PyramidIO.read_image + write_image, PyramidIO.update_image} x {F32, F64, "
+              "I16} x value spans {1->50, 50->1, 1->50->0.02, 50->0.02->1} x {every pixel replaced, merge of a full image}, each leaf "
+              "file checked after every pass, then cascade; %d random histories (2-4 passes over <= 10 leaves of a depth 1..3 pyramid, "
+              "F32/F64/I16/I32/U8, spans 0.02/1/50, write / save / read+write / update, fill / merge); %d chunked plate-carree maps "
+              "(64..128 x 128..256 px, 1..6 chunks [height, width] with their own level and spread) sampled chunk by chunk through "
+              "ChunkedPlateCarreeSampler + Builder.toast_base(tile_filter=...) into a depth-1/2 TOAST FITS pyramid; %d "
+              "MultiTanProcessor tilings of 2-5 overlapping FITS pieces of a ramp mosaic (<= 700 px); all followed by the cascade "
+              "(+ WTML for the Builder ones); %d of the histories / chunked / multi_tan cases re-run in parallel"
+              % (n_fixed, nhist, nchunk, ntan, nhpar))
     wlist = [2, 3, 4] if ctx.thorough else [2, 4]
     cand = list(serial)
     rng.shuffle(cand)
     parallel = []
     zpar = zero[:4] + zero[-2:] + zero[4:nzpar - 2]      # fixed share of the zero-extremum family (pyramids and study tilings)
-    chosen = [s for s in cand if not any(s is z for z in zpar)][:npar] + zpar
+    hpar = hist[n_fixed:n_fixed + 1] + [h for h in hist if h["via"] == "chunked"][:max(1, nhpar // 3)] + [h for h in hist if h["via"] == "multi_tan"][:max(1, nhpar // 3)]
+    if ctx.thorough:
+        hpar = (hpar + hist[n_fixed + 1:])[:nhpar]
+    chosen = [s for s in cand if not any(s is z for z in zpar) and not any(s is h for h in hist)][:npar] + zpar + hpar
     for s in chosen:
         for w in wlist:
+            if s["via"] == "chunked" and w != 2 and not ctx.thorough:
+                continue        # every chunk is a parallel stage of its own (seconds of worker start-up and shut-down)
             p = dict(s)
             p["workers"] = w
-            if rng.random() < 0.15 and p["via"] != "study":
+            if rng.random() < 0.15 and p["via"] not in ("study", "chunked", "multi_tan"):
                 p["filter"] = "all"
             parallel.append(p)
     ctx.bound("%d of these pyramids re-run with workers in %r (own interpreter, 90 s watchdog), cards compared with the serial run" % (len(chosen), wlist))
@@ -357,6 +671,13 @@ def run(ctx):
     def cost(s):
         if s["via"] == "study":
             return 0.05 + 0.01 * ((max(s["width"], s["height"]) + 255) // 256) ** 2
+        if s["via"] == "history":
+            return 0.02 + 0.012 * sum(len(p) for p in s["passes"])
+        if s["via"] == "chunked":
+            H, (ch, cw) = s["height"], s["chunk"]
+            return 0.1 + 0.035 * 4 ** s["depth"] * ((H + ch - 1) // ch) * ((2 * H + cw - 1) // cw)
+        if s["via"] == "multi_tan":
+            return 0.3 + 0.05 * len(s["pieces"])
         return 0.02 + 0.01 * len(s["leaves"])
     batches, cur, c = [], [], 0.0
     for s in sorted(serial, key=lambda s: -cost(s)):
@@ -381,13 +702,20 @@ def run(ctx):
     with concurrent.futures.ThreadPoolExecutor(max_workers=M.n_workers()) as ex:
         results = list(ex.map(do, jobs))
     runs = {}
+    if os.environ.get("VERIF_TIMING"):
+        import sys
+        for job, r in sorted(zip(jobs, results), key=lambda jr: -jr[1][2])[:12]:
+            what = job[3] if job[0] == "range_case" else [s["via"] for s in job[3]]
+            sys.stderr.write("C14 timing %.1fs %s est=%.1f %s\n" % (r[2], job[0], sum(cost(s) for s in (job[3] if job[0] == "batch" else [job[3]])), str(what)[:200]))
 
     def account(spec, res):
-        ctx.case(json.dumps(spec, sort_keys=True), nontrivial=res["tiles"] > 0)
+        # an update history exercises the rule only if some leaf file was saved again / several inputs were tiled
+        ctx.case(json.dumps(spec, sort_keys=True), nontrivial=res["tiles"] > 0 and (res.get("rewrites") is None or res["rewrites"] > 0))
         for f in res["fails"]:
             w = dict(spec)
             w.update(f.get("extra") or {})
-            report(f["obligation"], w, f["message"], family=spec["mode"] + ("/negative" if spec.get("negative") else "") + ("/zero-extremum" if is_zero_family(spec) else ""))
+            report(f["obligation"], w, f["message"], family=spec["mode"] + ("/negative" if spec.get("negative") else "") + ("/zero-extremum" if is_zero_family(spec) else "")
+                   + ("/" + spec["via"] if spec["via"] in ("history", "chunked", "multi_tan") else ""))
         runs.setdefault(base_key(spec), []).append((spec, res["cards"]))
 
     for job, (status, res, secs) in zip(jobs, results):
